@@ -49,7 +49,7 @@ TYPES_NOTE = ("Trusted: Coq kernel; the hand model of resolve_type.rs is tied to
               "(prop maps x encodings x declaration positions x scopes x call shapes); the expected values are the generator's own ground truth, "
               "independent of the model; TypeScript's meaning of the type forms and Vue's validateProp/resolvePropValue are this check's reading (tools/props.py).")
 CLAIMED["C16"] = {
-    "text": "C16_resolution_is_denotation: on a grammar of encodings (literals, parentheses, optional, alias chains, intersections / unions of any width, Partial / Required, Pick / Omit with literal-union keys, any depth) resolve_type_elements returns exactly the denoted member list, by induction. Theorems: C16_registry_complete (every alias of the module, wherever declared, is registered before the transformation - induction over the module's node list), C16_literal / C16_alias_paren_intersection / C16_partial_required_pick (each encoding operator is transparent or flips exactly the optional flag / keeps exactly the listed keys, for every fuel and registry), C16_required_unless_optional, C16_unresolved_reported. End to end, the `props` option received by the REAL output of every generated case is compared with the prop map the generator encoded (keys as declared, required unless optional).",
+    "text": "C16_resolution_is_denotation: on a grammar of encodings (literals, parentheses, optional, alias chains, intersections / unions of any width, Partial / Required, Pick / Omit with literal-union keys, interfaces with extends, any depth) resolve_type_elements returns exactly the denoted member list, by induction. Theorems: C16_registry_complete (every alias of the module, wherever declared, is registered before the transformation - induction over the module's node list), C16_literal / C16_alias_paren_intersection / C16_partial_required_pick (each encoding operator is transparent or flips exactly the optional flag / keeps exactly the listed keys, for every fuel and registry), C16_required_unless_optional, C16_unresolved_reported. End to end, the `props` option received by the REAL output of every generated case is compared with the prop map the generator encoded (keys as declared, required unless optional).",
     "note": TYPES_NOTE + " Known finding partial_getter. Interface registration/`extends` with type arguments are covered by correspondence only.",
     "technique": "Coq proofs (laws of the resolver; list induction for the registry) + ground-truth oracle on real outputs",
 }
